@@ -10,6 +10,10 @@ renamed, so that "three statements moved into a private method" is read exactly 
   * not assign to its parameters, use no *args/**kwargs, and be called with side-effect-free arguments (names, attribute chains,
     constants), positionally or by keyword.
 
+An assignment `T = self.h(a)` / `x, y = self.h(a)` (also a `return self.h(a)` is NOT handled) whose helper consists of simple
+statements, guard clauses of the form `if c: return E` and a final `return E` is expanded the same way: the returns become
+assignments to T in an if/else cascade.
+
 Anything else is left as the call it is (and the walking rule treats it as it always did).
 """
 import ast
@@ -153,6 +157,115 @@ def expand_call(idx, mod, cls, call, serial):
     return out or [ast.copy_location(ast.Pass(), call)]
 
 
+def _value_body(body):
+    """True when body is: simple statements / guard `if c: [simple...] return E` clauses ..., ending in `return E`"""
+    if not body or not isinstance(body[-1], ast.Return) or body[-1].value is None:
+        return False
+    for st in body[:-1]:
+        if isinstance(st, ast.Expr) and isinstance(st.value, ast.Constant):
+            continue
+        if isinstance(st, (ast.Assign, ast.AugAssign, ast.AnnAssign, ast.Pass)):
+            continue
+        if isinstance(st, ast.If) and not st.orelse and st.body and isinstance(st.body[-1], ast.Return) \
+                and st.body[-1].value is not None \
+                and all(isinstance(x, (ast.Assign, ast.AugAssign, ast.AnnAssign, ast.Pass)) for x in st.body[:-1]):
+            continue
+        return False
+    return True
+
+
+def _cascade(body, target):
+    """statements equivalent to running body and assigning its return value to `target` (body satisfies _value_body)"""
+    out = []
+    for i, st in enumerate(body):
+        if isinstance(st, ast.Expr):
+            continue
+        if isinstance(st, ast.Return):
+            out.append(ast.Assign(targets=[copy.deepcopy(target)], value=st.value, lineno=st.lineno, col_offset=0))
+            return out
+        if isinstance(st, ast.If):
+            then = list(st.body[:-1]) + [ast.Assign(targets=[copy.deepcopy(target)], value=st.body[-1].value,
+                                                     lineno=st.lineno, col_offset=0)]
+            rest = _cascade(body[i + 1:], target)
+            out.append(ast.If(test=st.test, body=then, orelse=rest, lineno=st.lineno, col_offset=0))
+            return out
+        out.append(st)
+    return out
+
+
+def expand_assign_call(idx, mod, cls, st, serial):
+    """`T = helper(...)` -> statements, or None"""
+    if not (isinstance(st, ast.Assign) and len(st.targets) == 1 and isinstance(st.value, ast.Call)):
+        return None
+    tgt = st.targets[0]
+    if not (isinstance(tgt, ast.Name) or (isinstance(tgt, (ast.Tuple, ast.List)) and all(isinstance(e, ast.Name) for e in tgt.elts))):
+        return None
+    call = st.value
+    r = resolve_helper(idx, mod, cls, call)
+    if r is None:
+        return None
+    fn, binds_self = r
+    a = fn.args
+    if a.vararg or a.kwarg or a.posonlyargs or a.kwonlyargs or not _value_body(fn.body):
+        return None
+    if sum(1 for _ in ast.walk(fn)) > 400:
+        return None
+    params = [p.arg for p in a.args]
+    if binds_self:
+        if not params:
+            return None
+        params = params[1:]
+    if any(isinstance(x, ast.Starred) for x in call.args) or any(k.arg is None for k in call.keywords) \
+            or len(call.args) > len(params):
+        return None
+    mapping = dict(zip(params, call.args))
+    for k in call.keywords:
+        if k.arg not in params or k.arg in mapping:
+            return None
+        mapping[k.arg] = k.value
+    defaults = dict(zip([p.arg for p in a.args][len(a.args) - len(a.defaults):], a.defaults))
+    for prm in params:
+        if prm not in mapping:
+            if prm not in defaults or not isinstance(defaults[prm], ast.Constant):
+                return None
+            mapping[prm] = defaults[prm]
+    if not all(_pure_arg(e) for e in mapping.values()):
+        return None
+    stored = {n.id for x in fn.body for n in ast.walk(x) if isinstance(n, ast.Name) and isinstance(n.ctx, (ast.Store, ast.Del))}
+    if stored & set(mapping):
+        return None
+    if any(isinstance(n, (ast.Lambda, ast.ListComp, ast.SetComp, ast.DictComp, ast.GeneratorExp, ast.NamedExpr, ast.Yield,
+                          ast.YieldFrom, ast.Await)) for x in fn.body for n in ast.walk(x)):
+        return None
+    tnames = {tgt.id} if isinstance(tgt, ast.Name) else {e.id for e in tgt.elts}
+    if tnames & (stored | {n.id for e in mapping.values() for n in ast.walk(e) if isinstance(n, ast.Name)}):
+        return None         # the target is read by an argument or is a helper local: keep the call
+    rename = {n: '__inl%d_%s' % (serial, n) for n in stored}
+    cas = _cascade([copy.deepcopy(x) for x in fn.body], tgt)
+    out = []
+    for x in cas:
+        # the assignment targets introduced by the cascade must not be renamed / substituted
+        x2 = _SubstKeep(mapping, rename, tnames).visit(x)
+        for n in ast.walk(x2):
+            if hasattr(n, 'lineno'):
+                n.lineno = st.lineno
+                n.end_lineno = getattr(st, 'end_lineno', st.lineno)
+        ast.fix_missing_locations(x2)
+        out.append(x2)
+    return out
+
+
+class _SubstKeep(_Subst):
+    def __init__(self, mapping, rename, keep):
+        _Subst.__init__(self, mapping, rename)
+        self.keep = keep
+
+    def visit_Name(self, n):
+        if n.id in self.keep and isinstance(n.ctx, ast.Store):
+            return n
+        return _Subst.visit_Name(self, n)
+
+
 def inline_helpers(idx, mod, cls, fn):
     """-> (FunctionDef with statement-calls of small helpers expanded, [names of helpers expanded]).  fn itself is untouched;
     when nothing is expanded fn is returned as is."""
@@ -163,6 +276,13 @@ def inline_helpers(idx, mod, cls, fn):
         for st in stmts:
             if isinstance(st, ast.Expr) and isinstance(st.value, ast.Call):
                 rep = expand_call(idx, mod, cls, st.value, len(done))
+                if rep is not None:
+                    done.append(ast.unparse(st.value.func))
+                    out.extend(rep)
+                    changed = True
+                    continue
+            if isinstance(st, ast.Assign) and isinstance(st.value, ast.Call):
+                rep = expand_assign_call(idx, mod, cls, st, len(done))
                 if rep is not None:
                     done.append(ast.unparse(st.value.func))
                     out.extend(rep)
